@@ -26,7 +26,7 @@ func main() {
 	trace := flag.Int("trace", -1, "debug: print the hook trace of the e2e scenario with this index (generated ones, from 0)")
 	flag.Parse()
 	sarama.Logger = log.New(ioutil.Discard, "", 0)
-	imp := "From SV Require Import Wire.Prim Wire.Records C04.Model C04.Corr."
+	imp := "From SV Require Import Wire.Prim Wire.Records C04.Model C04.Corr." + bigDefs()
 	r := rand.New(rand.NewSource(*seed))
 	fails := 0
 	if *only == "" || *only == "build" {
